@@ -16,7 +16,8 @@ SHIM = os.path.join(core.VERIF, "harness", "detsched", "shim.hpp")
 def gen_case(rng, cid, tier):
     lines = [f"case p{cid}"]
     nw = rng.choice([1, 1, 2, 2, 2, 3, 3, 4])
-    lines.append(f"pool {nw}")
+    # init_thread callback with 0-3 scheduling points: workers that are neither idle nor busy while starting up
+    lines.append(f"pool {nw}" + (f" init={rng.choice([0, 1, 2, 3])}" if rng.random() < 0.3 else ""))
     ncodes = rng.choice([1, 2, 3, 4])
     has_term = rng.random() < 0.35
     # job k only enqueues codes < k: finite job trees
@@ -27,8 +28,13 @@ def gen_case(rng, cid, tier):
             for _ in range(rng.choice([0, 1, 1, 2, 3])):
                 body.append(f"e{rng.randrange(k)}")
         if has_term and rng.random() < 0.3:
-            body.insert(rng.randrange(len(body) + 1), "t")
+            body.insert(rng.randrange(len(body) + 1), "t")     # also: enqueue from inside a job after terminate()
             term_code = k
+        if rng.random() < 0.15:
+            body.insert(rng.randrange(len(body) + 1), rng.choice(["d", "i"]))
+        if rng.random() < 0.2:
+            # the job throws std::runtime_error (after some of its calls); the pool catches and logs it
+            body.insert(rng.randrange(len(body) + 1), "x")
         lines.append("job " + " ".join([str(k)] + body))
 
     def calls(n, allow_wait=True):
@@ -37,8 +43,10 @@ def gen_case(rng, cid, tier):
             r = rng.random()
             if r < 0.55:
                 cs.append(f"e{rng.randrange(ncodes)}")
-            elif r < 0.85 and allow_wait:
+            elif r < 0.80 and allow_wait:
                 cs.append("w")
+            elif r < 0.85:
+                cs.append(rng.choice(["d", "i"]))
             elif r < 0.92 and has_term:
                 cs.append("t")
             elif r < 0.97 and has_term and allow_wait:
@@ -72,13 +80,18 @@ def gen_case(rng, cid, tier):
 
 EXPLORE = [
     # (scenario lines, quick runs, thorough runs): systematic depth-first enumeration of all schedules
-    (["pool 1", "job 0", "client w", "main e0"], 1500, 15000),
-    (["pool 1", "job 0", "client w", "client w", "main e0"], 1500, 15000),          # the D6 shape
-    (["pool 1", "client u", "client u", "main t"], 1500, 15000),                    # the D6b shape
-    (["pool 1", "job 0", "client u", "client w", "main e0 t"], 1000, 15000),
-    (["pool 2", "job 0", "job 1 e0", "main e1 w"], 1000, 15000),
-    (["pool 1", "job 0", "job 1 e0 t", "client w", "main e1 u"], 0, 15000),
-    (["pool 2", "job 0", "client e0 w", "main e0 w"], 0, 15000),
+    (["pool 1", "job 0", "client w", "main e0"], 600, 10000),
+    (["pool 1", "job 0", "client w", "client w", "main e0"], 600, 10000),          # the D6 shape
+    (["pool 1", "client u", "client u", "main t"], 600, 10000),                    # the D6b shape
+    (["pool 1", "job 0", "client u", "client w", "main e0 t"], 400, 10000),
+    (["pool 2", "job 0", "job 1 e0", "main e1 w"], 400, 10000),
+    (["pool 1", "job 0", "job 1 e0 t", "client w", "main e1 u"], 0, 10000),
+    (["pool 2", "job 0", "client e0 w", "main e0 w"], 0, 10000),
+    (["pool 1", "job 0 x", "client w", "main e0 w"], 400, 10000),                  # a job that throws
+    (["pool 1", "job 0", "job 1 e0 x e0", "main e1 w d"], 320, 10000),              # throws after enqueuing a child
+    (["pool 1 init=2", "client u", "main t"], 320, 10000),                          # terminate() during worker start-up
+    (["pool 1", "job 0", "job 1 t e0 d", "client u", "main e1 u"], 0, 10000),       # enqueue inside a job after terminate
+    (["pool 1", "job 0 i", "main e0 e0 d"], 0, 10000),                              # destruction while jobs are queued
 ]
 
 
@@ -93,8 +106,11 @@ def explore_cases(tier):
 
 class C10(flow.Spec):
     pid = "C10"
-    harness = dict(name="c10", sources=["c10.cpp"], flags=["-include", SHIM], repo_sources=["tlx/thread_pool.cpp"])
-    nontrivial_rule = ("scenario = pool size 1-4, a table of job bodies (jobs enqueueing jobs / terminating the pool), "
+    # -O0: the harness spends its time in thread hand-overs, not in computation; compiling is 3x faster
+    harness = dict(name="c10", sources=["c10.cpp"], flags=["-include", SHIM], repo_sources=["tlx/thread_pool.cpp"],
+                   std_flags=["-O0" if f == "-O1" else f for f in core.SAN_FLAGS])
+    nontrivial_rule = ("scenario = pool size 1-4 (optionally with an init_thread callback), a table of job bodies (jobs enqueueing "
+                       "jobs / terminating the pool / throwing std::runtime_error / calling done() and idle()), "
                        "0-3 client threads and the main thread issuing enqueue / loop_until_empty / loop_until_terminate / "
                        "terminate, run under several PRNG schedules (with sticky and spurious-wake-up variants); a case is "
                        "non-trivial when in some run a waiter really blocked on cv_finished_ and either two workers were "
@@ -154,7 +170,7 @@ class C10(flow.Spec):
 
     def cases(self, ctx, seed, tier, round_no=0):
         rng = random.Random(seed * 1000003 + round_no * 7919 + 10)
-        n = 700 if tier == "quick" else 10000
+        n = 500 if tier == "quick" else 10000
         cs = [gen_case(rng, i, tier) for i in range(n)]
         if round_no == 0:
             cs += explore_cases(tier)
